@@ -28,9 +28,25 @@ func forgeFor(w *World, it Item, attacker string, round string) (Item, bool) {
 }
 
 func scenarioC10(c *Ctx) {
-	w := NewWorld(3, 2, 1)
-	me := w.Users[0]
-	roundA, roundB := "round-c10-A", "round-c10-B"
+	var cases []HistCase
+	w0 := NewWorld(3, 2, 1)
+	cases = append(cases, c10Cases(c, w0, w0.Users[0], "", false)...)
+	if !c.Quick() {
+		// every observer, further sizes, every other event name
+		cases = append(cases, c10Cases(c, w0, w0.Users[1], "-o1", true)...)
+		cases = append(cases, c10Cases(c, w0, w0.Users[2], "-o2", true)...)
+		for wi, nt := range [][2]int{{2, 2}, {4, 3}, {5, 3}} {
+			w := NewWorld(nt[0], nt[1], wi+2)
+			cases = append(cases, c10Cases(c, w, w.Users[0], fmt.Sprintf("-w%d", wi), true)...)
+		}
+	}
+	cases = append(cases, reinitCases(c, w0, "C10")...)
+	runCases(c, cases)
+	c.Notes["histories"] = len(cases)
+}
+
+func c10Cases(c *Ctx, w *World, me string, tag string, allEvents bool) []HistCase {
+	roundA, roundB := "round-c10-A"+tag, "round-c10-B"+tag
 	hA := w.Honest(roundA, me)
 	hB := w.Honest(roundB, me)
 	var cases []HistCase
@@ -51,7 +67,7 @@ func scenarioC10(c *Ctx) {
 			}
 			items := append(append([]Item{}, hA[:k]...), forged)
 			ev, pos, att := hA[k].In.Msg.Event, k, attacker
-			cases = append(cases, HistCase{Kind: "impersonate", User: me, Items: items, PrefixKey: fmt.Sprintf("A/%d", k), Check: func(o RunObs) {
+			cases = append(cases, HistCase{Kind: "impersonate", User: me, Items: items, PrefixKey: fmt.Sprintf("A%s/%d", tag, k), Check: func(o RunObs) {
 				if o.Classes[len(o.Classes)-1] != "err" || o.Before != o.After {
 					report("impersonation-accepted", map[string]interface{}{"event": ev},
 						fmt.Sprintf("%s, with its own valid signature, acted as %s in %s", att, victim, ev),
@@ -68,7 +84,7 @@ func scenarioC10(c *Ctx) {
 				forged := w.RawMsg(roundA, "event_sig_proposal_decline_by_participant", hA[k].In.Msg.Data, attacker, "", attacker, hA[k].In.Now, "impersonate-decline")
 				items := append(append([]Item{}, hA[:k]...), forged)
 				att, pos := attacker, k
-				cases = append(cases, HistCase{Kind: "impersonate-decline", User: me, Items: items, PrefixKey: fmt.Sprintf("A/%d", k), Check: func(o RunObs) {
+				cases = append(cases, HistCase{Kind: "impersonate-decline", User: me, Items: items, PrefixKey: fmt.Sprintf("A%s/%d", tag, k), Check: func(o RunObs) {
 					if o.Classes[len(o.Classes)-1] != "err" || o.Before != o.After {
 						report("impersonation-accepted", map[string]interface{}{"event": "event_sig_proposal_decline_by_participant"},
 							fmt.Sprintf("%s declined in the name of %s", att, victim), map[string]interface{}{"position": pos, "before": o.Before, "after": o.After})
@@ -85,7 +101,7 @@ func scenarioC10(c *Ctx) {
 		_, desc := w.sign(g.SenderAddr, g.Data)
 		items := append(append([]Item{}, hB[:k]...), mkItem(replay, desc, hA[k].In.Now, "replay-round"))
 		ev, pos := g.Event, k
-		cases = append(cases, HistCase{Kind: "replay-round", User: me, Items: items, PrefixKey: fmt.Sprintf("B/%d", k), Check: func(o RunObs) {
+		cases = append(cases, HistCase{Kind: "replay-round", User: me, Items: items, PrefixKey: fmt.Sprintf("B%s/%d", tag, k), Check: func(o RunObs) {
 			if o.Classes[len(o.Classes)-1] == "ok" && o.Before != o.After {
 				report("cross-round-replay", map[string]interface{}{},
 					fmt.Sprintf("a genuine %s message of one round, re-posted under another round identifier, was accepted there", ev),
@@ -102,26 +118,34 @@ func scenarioC10(c *Ctx) {
 	}
 	for k := 1; k < len(hA); k++ {
 		g := hA[k].In.Msg
-		other, ok := swap[g.Event]
-		if !ok {
-			continue
+		var others []string
+		if o, ok := swap[g.Event]; ok {
+			others = append(others, o)
 		}
-		replay := g
-		replay.Event = other
-		_, desc := w.sign(g.SenderAddr, g.Data)
-		items := append(append([]Item{}, hA[:k]...), mkItem(replay, desc, hA[k].In.Now, "replay-event"))
-		ev, pos := g.Event, k
-		cases = append(cases, HistCase{Kind: "replay-event", User: me, Items: items, PrefixKey: fmt.Sprintf("A/%d", k), Check: func(o RunObs) {
-			if o.Classes[len(o.Classes)-1] == "ok" && o.Before != o.After {
-				report("cross-event-replay", map[string]interface{}{},
-					fmt.Sprintf("a genuine %s message re-posted as %s was accepted", ev, other),
-					map[string]interface{}{"position": pos, "event": ev, "as": other})
+		if allEvents {
+			for _, e := range publicEvents {
+				if e != g.Event && e != "event_sig_proposal_init" && (len(others) == 0 || e != others[0]) {
+					others = append(others, e)
+				}
 			}
-		}})
+		}
+		for _, other := range others {
+			other := other
+			replay := g
+			replay.Event = other
+			_, desc := w.sign(g.SenderAddr, g.Data)
+			items := append(append([]Item{}, hA[:k]...), mkItem(replay, desc, hA[k].In.Now, "replay-event"))
+			ev, pos := g.Event, k
+			cases = append(cases, HistCase{Kind: "replay-event", User: me, Items: items, PrefixKey: fmt.Sprintf("A%s/%d", tag, k), Check: func(o RunObs) {
+				if o.Classes[len(o.Classes)-1] == "ok" && o.Before != o.After {
+					report("cross-event-replay", map[string]interface{}{},
+						fmt.Sprintf("a genuine %s message re-posted as %s was accepted", ev, other),
+						map[string]interface{}{"position": pos, "event": ev, "as": other})
+				}
+			}})
+		}
 	}
 	_ = json.Marshal
 	_ = requests.DefaultRequest{}
-	cases = append(cases, reinitCases(c, w, "C10")...)
-	runCases(c, cases)
-	c.Notes["histories"] = len(cases)
+	return cases
 }
